@@ -284,15 +284,15 @@ namespace Idx
 
 abbrev St := apply_indices_to_index_values.St
 
-def Frame (idx cur nxt values : List Nat) (s : St) : Prop :=
+def Frame (cur nxt values : List Nat) (s : St) : Prop :=
   s.p2 = ints values ∧ s.v0 = ints cur ∧ s.v1 = ints nxt
 
 theorem pass1 (cur nxt values : List Nat) :
-    ∀ (idx : List Nat) (count total : Nat) (s : St) (c' t' : Nat), Frame idx cur nxt values s →
+    ∀ (idx : List Nat) (count total : Nat) (s : St) (c' t' : Nat), Frame cur nxt values s →
       s.v2 = (count : Int) → s.v3 = (total : Int) →
       indexPass1 .repaired cur nxt (ints idx) count total = .ok (c', t') →
       ∃ s', forEachAux (fun _ => false) (fun k s => apply_indices_to_index_values.body_L1 { s with v4 := k }) (ints idx) s
-          = .ok s' ∧ Frame idx cur nxt values s' ∧ s'.v2 = (c' : Int) ∧ s'.v3 = (t' : Int) ∧ s'.p0 = s.p0 ∧ s'.p1 = s.p1
+          = .ok s' ∧ Frame cur nxt values s' ∧ s'.v2 = (c' : Int) ∧ s'.v3 = (t' : Int) ∧ s'.p0 = s.p0 ∧ s'.p1 = s.p1
   | [], count, total, s, c', t', hF, h2, h3, h => by
     simp only [ints, List.map_nil, indexPass1, Except.ok.injEq, Prod.mk.injEq] at h
     exact ⟨s, rfl, hF, by rw [h2, h.1], by rw [h3, h.2], rfl, rfl⟩
@@ -307,7 +307,9 @@ theorem pass1 (cur nxt values : List Nat) :
       simp only [] at h
       have hin : ¬ ((i : Int) < -(cur.length : Int) ∨ (i : Int) ≥ (cur.length : Int)) := by
         intro hc
-        simp [indexGuard, hc] at hg
+        unfold indexGuard at hg
+        rw [if_pos ⟨rfl, hc⟩] at hg
+        cases hg
       cases hel : entryLen cur nxt (i : Int) with
       | error e => rw [hel] at h; simp at h
       | ok d =>
@@ -331,7 +333,7 @@ theorem pass1 (cur nxt values : List Nat) :
         simpa [ints] using hrec
 
 theorem pass2 (cur nxt values : List Nat) :
-    ∀ (idx : List Nat) (s : St) (st st' : P2), Frame idx cur nxt values s →
+    ∀ (idx : List Nat) (s : St) (st st' : P2), Frame cur nxt values s →
       s.v2 = (st.count : Int) → s.v3 = (st.total : Int) → s.v5 = ints st.di → s.v6 = ints st.dv →
       indexPass2 cur nxt values (ints idx) st = .ok st' →
       ∃ s', forEachAux (fun _ => false) (fun k s => apply_indices_to_index_values.body_L2 { s with v4 := k }) (ints idx) s
@@ -392,7 +394,7 @@ theorem apply_indices_to_index_values_ok (idx indices values di dv : List Nat)
       unfold apply_indices_to_index_values.run
       have hdl : (ints indices).dropLast = ints indices.dropLast := by simp [ints, List.map_dropLast]
       have htl : (ints indices).tail = ints (indices.drop 1) := by simp [ints]
-      simp only [bindE_ok, pySlice_dropLast, pySlice_tail, hdl, htl, forEachE]
+      simp only [pySlice_dropLast, pySlice_tail, hdl, htl, forEachE]
       obtain ⟨s1, hrun1, hF1, hc1, ht1, hp0, hp1⟩ := Idx.pass1 indices.dropLast (indices.drop 1) values idx 0 0
         (⟨ints idx, ints indices, ints values, ints indices.dropLast, ints (indices.drop 1), 0, 0, 0, [], [], 0, 0, 0⟩ : Idx.St)
         count total ⟨rfl, rfl, rfl⟩ rfl rfl h1
@@ -406,14 +408,16 @@ theorem apply_indices_to_index_values_ok (idx indices values di dv : List Nat)
       have hz : setIdxE (List.replicate (count + 1) (0 : Int)) 0 0 "v5[0]" = .ok ((List.replicate (count + 1) (0 : Int)).set 0 0) := by
         simp [setIdxE, setE]
       simp only [hz, bindE_ok]
-      rw [show (({ s1 with v5 := List.replicate (count + 1) (0 : Int) } : Idx.St)).p0 = ints idx from hp0']
       obtain ⟨s2, hrun2, h5, h6⟩ := Idx.pass2 indices.dropLast (indices.drop 1) values idx
         ({ s1 with v5 := (List.replicate (count + 1) (0 : Int)).set 0 0, v6 := List.replicate total (0 : Int), v2 := 1, v3 := 0 } : Idx.St)
         ⟨1, 0, (List.replicate (count + 1) 0).set 0 0, List.replicate total 0⟩ st'
         ⟨f2, f3, f4⟩ rfl rfl (by simp [ints]) (by simp [ints]) h2
-      have hrun2' : forEachAux (fun _ => false) (fun k s => apply_indices_to_index_values.body_L2 { s with v4 := k }) (ints idx)
+      have hrun2' : forEachAux (fun _ => false) (fun k s => apply_indices_to_index_values.body_L2 { s with v4 := k }) s1.p0
           ({ s1 with v5 := (List.replicate (count + 1) (0 : Int)).set 0 0, v6 := List.replicate total (0 : Int), v2 := 1, v3 := 0 } : Idx.St)
-          = .ok s2 := hrun2
+          = .ok s2 := by
+        have := hrun2
+        rw [← hp0'] at this
+        exact this
       simp only [hrun2', bindE_ok, h5, h6, h.1, h.2]
 
 end Exetera.GenK
